@@ -15,7 +15,7 @@
    The hypotheses are relativised to valid points because on junk pairs (x, y) the formulas are of course not a
    group; the abstract section is then applied to the subset type { P | validb P = true }. *)
 From BSV Require Import Base.Bytes.
-From BSV Require Import Prim.Num Prim.Secp256k1 Proofs.Secp256k1Proofs Proofs.Secp256k1Order Proofs.EcdsaAbstract.
+From BSV Require Import Prim.Num Prim.Secp256k1 Proofs.Secp256k1Proofs Proofs.Secp256k1Order Proofs.EcdsaAbstract Proofs.SecpPrimes.
 From Coq Require Import Eqdep_dec Zdiv Setoid Morphisms.
 Local Open Scope Z_scope.
 
@@ -39,8 +39,8 @@ Record secp256k1_group : Prop := {
   sg_mul_add : forall a b P, valid P -> smul (a + b) P = padd (smul a P) (smul b P);
   sg_mul_mul : forall a b P, valid P -> smul (a * b) P = smul a (smul b P);
   sg_mul_1 : forall P, valid P -> smul 1 P = P;
-  (* the group order is prime: every non-zero residue is invertible *)
-  sg_n_prime : forall a, 0 < a < secp_n -> Z.gcd a secp_n = 1;
+  (* (that the group order n is prime - every non-zero residue is invertible - is no longer a premise:
+     Proofs/SecpPrimes.secp_n_coprime, from a checked Pratt certificate) *)
   (* used by the recovery theorems only *)
   sg_lift : forall P, valid P -> P <> None -> lift_x (xcoord P) (yodd P) = Some P;
   sg_yodd_neg : forall P, valid P -> P <> None -> yodd (pneg P) = negb (yodd P);
@@ -130,7 +130,7 @@ Section Instance.
   Lemma v_mul_n_G : v_mul secp_n v_G = v_zero.
   Proof. apply vpt_eq. cbn [vp proj1_sig v_mul v_G v_zero]. exact order_G. Qed.
   Lemma v_inv_ok a : 0 < a < secp_n -> (a * sinv a) mod secp_n = 1.
-  Proof. apply sinv_ok. exact (sg_n_prime H). Qed.
+  Proof. apply sinv_ok. exact secp_n_coprime. Qed.
   Lemma v_x_neg P : v_x (v_neg P) = v_x P.
   Proof. apply xcoord_pneg. Qed.
   Lemma v_x_zero : v_x v_zero = 0.
